@@ -111,6 +111,13 @@ def run(chk, tier, replay=None):
         if len(pr) != len(sp):
             sig = "signal %d" % (-r.rc) if r.rc < 0 else "rc %d" % r.rc
             site = r.san[0][0] if r.san else sig
+            if r.san and "enc" in k and core.match_known("C11", "C11|" + site, chk.known):
+                # a memory error that single encoder sessions produce on their own (recorded under C11 from
+                # single-instance campaigns) is not evidence of interference between the sessions
+                chk.inconclusive_case("the process died at %s, a single-instance encoder defect recorded under C11" % site,
+                                      {"specs": sp})
+                chk.bump("died_at_single_instance_defect")
+                continue
             chk.violation("C17|crash|%s|%s" % (k, site), "process running %s together died (%s): %s"
                           % (sp, sig, r.san[0][1][:400] if r.san else r.err[-200:]), {"specs": sp})
             continue
@@ -121,9 +128,11 @@ def run(chk, tier, replay=None):
                 bad.append("session %d (%s): alone %s, together %s" % (j, b, want, got))
         if bad:
             chk.violation("C17|output-differs|%s" % k, "; ".join(bad)[:600], {"specs": sp})
-        elif any(kk.startswith("asan") and kk not in solo_keys for kk, _ in r.san):
+        elif any(kk.startswith("asan") and kk not in solo_keys and not core.match_known("C11", "C11|" + kk, chk.known)
+                 for kk, _ in r.san):
             # memory errors that the sessions do not produce when they run alone
-            kk, ex = [x for x in r.san if x[0].startswith("asan") and x[0] not in solo_keys][0]
+            kk, ex = [x for x in r.san if x[0].startswith("asan") and x[0] not in solo_keys
+                      and not core.match_known("C11", "C11|" + x[0], chk.known)][0]
             chk.violation("C17|memory-error|%s|%s" % (k, kk), ex[:600], {"specs": sp})
         else:
             chk.nontrivial_case(core.sha(" ".join(sp)))
